@@ -1,9 +1,9 @@
 package core
 
 import (
-	"strings"
 	"go/token"
 	"go/types"
+	"strings"
 
 	"golang.org/x/tools/go/ssa"
 )
